@@ -285,6 +285,53 @@ def elementary_checks(verdict, spec, nss, tier, seed):
     return n_eval, len(distinct)
 
 
+def flow_map_checks(verdict, nss, tier, seed):
+    """the flow-based preconditioning map (FlowPreconditioningTransform: a data transform followed by a
+    trained flow) obeys the same bijection laws: round trip, inverse log-Jacobian = minus the forward one,
+    and the forward log-Jacobian is log|det| of the derivative (central finite differences)"""
+    import smcdrv
+    from aspire.transforms import FlowPreconditioningTransform
+    rng = np.random.default_rng(seed + 23)
+    n = 0
+    params = ["q", "alpha"]
+    bounds = {"q": [-3.0, 5.0], "alpha": [0.0, 2.0]}
+    x = np.stack([rng.uniform(-2.5, 4.5, 48), rng.uniform(0.1, 1.9, 48)], axis=1)
+    for backend, kw in (("verifflow", {}), ("zuko", {"flow_kwargs": {"hidden_features": [8]}, "fit_kwargs": {"n_epochs": 1, "batch_size": 24}})):
+        for ns in nss:
+            xp = smcdrv.get_xp(ns)
+            scen = {"builder": "flow_map", "params": {"backend": backend, "ns": ns}}
+            try:
+                T = FlowPreconditioningTransform(parameters=params, prior_bounds=bounds, bounded_to_unbounded=True, bounded_transform="logit",
+                                                 affine_transform=True, xp=xp, dtype="float64", flow_backend=backend, **kw)
+                T.fit(xp.asarray(x.copy()))
+                y, j = T.forward(xp.asarray(x[:12].copy()))
+                xb, jb = T.inverse(y)
+                yn = np.asarray(smcdrv.to_np(y), dtype=np.float64)
+                cols = []
+                for kdim in range(2):
+                    h = 1e-6 * (1.0 + np.abs(x[:12, kdim]))
+                    xq, xm = x[:12].copy(), x[:12].copy()
+                    xq[:, kdim] += h; xm[:, kdim] -= h
+                    yq = np.asarray(smcdrv.to_np(T.forward(xp.asarray(xq))[0]), dtype=np.float64)
+                    ym = np.asarray(smcdrv.to_np(T.forward(xp.asarray(xm))[0]), dtype=np.float64)
+                    cols.append((yq - ym) / (2 * h)[:, None])
+                sign, logdet = np.linalg.slogdet(np.stack(cols, axis=2))
+            except Exception as ex:
+                verdict.violation(f"NeverRaises|flow-map|{backend}|{ns}|{type(ex).__name__}", f"flow preconditioning map ({backend}, samples in {ns}) raised {type(ex).__name__}: {str(ex)[:140]}", scen)
+                continue
+            n += 12
+            jn = np.asarray(smcdrv.to_np(j), dtype=np.float64).reshape(-1)
+            jbn = np.asarray(smcdrv.to_np(jb), dtype=np.float64).reshape(-1)
+            xbn = np.asarray(smcdrv.to_np(xb), dtype=np.float64)
+            if not np.allclose(xbn, x[:12], rtol=0, atol=1e-7):
+                verdict.violation(f"RoundTrip|flow-map|{backend}|{ns}", f"inverse(forward(x)) != x for the flow preconditioning map (max diff {np.max(np.abs(xbn - x[:12])):.3g})", scen)
+            if not np.allclose(jbn, -jn, rtol=0, atol=1e-7 * (1 + np.abs(jn).max())):
+                verdict.violation(f"InvJacNeg|flow-map|{backend}|{ns}", f"inverse log-Jacobian is not minus the forward one for the flow preconditioning map (max diff {np.max(np.abs(jbn + jn)):.3g})", scen)
+            if not np.allclose(logdet, jn, rtol=0, atol=2e-5 * (1 + np.abs(jn).max())):
+                verdict.violation(f"ElemJacobian|flow-map|{backend}|{ns}", f"forward log-Jacobian of the flow preconditioning map is not log|det dy/dx| (finite differences; max diff {np.max(np.abs(logdet - jn)):.3g})", scen)
+    return n
+
+
 def structure_checks(verdict, spec, nss, tier, seed):
     import smcdrv
     from aspire.transforms import (AffineTransform, CompositeTransform, FlowTransform, LogitTransform,
@@ -447,6 +494,7 @@ def main(prop, tier, seed, replay_path=None):
     nss = ["numpy", "torch", "jax"]
     n_el, n_dist = elementary_checks(verdict, spec, nss, tier, seed)
     n_st = structure_checks(verdict, spec, nss, tier, seed)
+    n_st += flow_map_checks(verdict, nss, tier, seed)
     # the exact wrap table computed by TLC agrees with the rational oracle of the harness (binding of the two)
     for wcase in spec["wrap"]:
         lo, hi, x = rat(wcase["b"][0]), rat(wcase["b"][1]), rat(wcase["x"])
